@@ -15,13 +15,16 @@ RULE = ('cases = corpus + generated: kind=body (payload sizes {limit-1, limit, l
         'type of Request.body, every read request and the stream position); kind=text (urlencoded / JSON bodies of the '
         'same sizes; via Request._get_body_string and via Request.forms / Request.json: 413 or the text); kind=budget '
         '(multipart bodies of 1..5 parts, text and file parts, sizes around max_memfile_size; via '
-        'FieldStorage.iter_items on the markup of MultipartMarkup and via Request.forms through WSGI). thorough: all '
+        'FieldStorage.iter_items on the markup of MultipartMarkup and via Request.forms through WSGI; every WSGI-level '
+        'case configures the application through the constructor, through app.setup(cfg) or through setup() '
+        'overriding constructor values; the model side '
+        'gets the raw body and boundary and runs its own scanner and field layer). thorough: all '
         'payload sizes 0..limit+buf+2 x limits 0..6 x buffers 3..5 x both framings x schedules {full, 1-byte, 2-byte}. '
         'non-trivial = a limit or threshold lies within [size-buf-1, size+buf+1] (the case is near an edge) and at least '
         'two reads were issued (body/text) or at least two parts (budget); distinct by the full case')
-TRUSTED = ['modelled, not verified: the multipart markup (sizes of header blocks and data sections are taken from the '
-           'implementation\'s MultipartMarkup; the parser itself belongs to C06/C07); the OS temporary file; '
-           'parse_qsl / json.loads (only the size cap in front of them is modelled)',
+TRUSTED = ['modelled, not verified: the OS temporary file; parse_qsl / json.loads (only the size cap in front of them is '
+           'modelled); the multipart scanner / header parser / field layer are the models of C06/C07 '
+           '(coq/model/MultipartRef.v, Fields.v, BodyPipeline.v), fed the raw body and boundary',
            'gen/Gen.v errors_map (BodySizeError -> 413, BodyParsingError -> 400) regenerated from /repo each run']
 ASSUMPTIONS = ['max_memfile_size > 0 (it is also the read buffer)', 'chunk-size lines not longer than the buffer',
                'wsgi.input.read(n) returns at most n bytes and b"" only at EOF']
@@ -109,9 +112,12 @@ def gen_body(rng, kind='body'):
             expect = 'any'                          # CL larger than what arrived: 413 decided on the header
     else:
         via = rng.choice(['func', 'func', 'wsgi'])
-    return dict(kind=kind, data=list(data), cl=cl, chunked=chunked, buf=buf, maxb=maxb,
-                sched=gen_sched(rng, len(data)), via=via, payload_len=len(payload), layout=layout,
-                ctype=ctype, expect=expect)
+    c = dict(kind=kind, data=list(data), cl=cl, chunked=chunked, buf=buf, maxb=maxb,
+             sched=gen_sched(rng, len(data)), via=via, payload_len=len(payload), layout=layout,
+             ctype=ctype, expect=expect)
+    if via != 'func':
+        c['conf'] = rng.choice(['ctor', 'ctor', 'setup', 'setup', 'setup_over'])
+    return c
 
 
 def build_multipart(parts, boundary=b'BnD'):
@@ -146,6 +152,8 @@ def gen_budget(rng):
         parts.append(dict(name='n%d' % i, filename=('f%d.bin' % i) if is_file else None, size=size,
                           pad=rng.choice([0, 0, 0, 3, 30])))
     c = dict(kind='budget', parts=parts, buf=buf, via=rng.choice(['iter_items', 'iter_items', 'wsgi']))
+    if c['via'] == 'wsgi':
+        c['conf'] = rng.choice(['ctor', 'setup', 'setup_over'])
     # steer half of the cases to the edge: threshold = exact need + {-1, 0, +1}
     if rng.random() < 0.5:
         _, triples = build_multipart(parts)
@@ -211,6 +219,16 @@ def corpus():
     for via in ('iter_items', 'wsgi'):
         out.append(dict(kind='budget', parts=big_file, buf=200, via=via))
         out.append(dict(kind='budget', parts=big_file, buf=150, via=via))
+    # applications configured through app.setup(): 413 / 400 must still be mapped (seeded change C05/change6)
+    for conf in ('setup', 'setup_over'):
+        out.append(dict(_body(d[:10], 10, 4, 5, via='wsgi'), conf=conf))
+        out.append(dict(_body(d[:5], 5, 4, 5, via='wsgi'), conf=conf))
+        out.append(dict(_body(b'a\r\n' + d[:10] + b'\r\n0\r\n\r\n', -1, 4, 5, chunked=True, via='wsgi', payload_len=10,
+                              layout=[[0, 3, 13]]), conf=conf))
+        out.append(dict(_body((b'k=' + b'v' * 9)[:9], 9, 8, None, via='gbs', kind='text', ctype='urlencoded'), conf=conf))
+        out.append(dict(_body((b'k=' + b'v' * 9)[:9], 9, 8, None, via='forms', kind='text', ctype='urlencoded'), conf=conf))
+        out.append(dict(kind='budget', parts=one, buf=44, via='wsgi', conf=conf))
+        out.append(dict(kind='budget', parts=one, buf=45, via='wsgi', conf=conf))
     return out
 
 
@@ -241,7 +259,16 @@ def thorough():
 
 def _wsgi(case, st, handler_of, ctype=None):
     from ombott import Ombott
-    app = Ombott(dict(max_memfile_size=case['buf'], max_body_size=case.get('maxb')))
+    cfg = dict(max_memfile_size=case['buf'], max_body_size=case.get('maxb'))
+    conf = case.get('conf', 'ctor')
+    if conf == 'ctor':
+        app = Ombott(cfg)
+    elif conf == 'setup':                       # the documented way to (re)configure an existing application
+        app = Ombott()
+        app.setup(cfg)
+    else:                                       # setup() overriding what the constructor was given
+        app = Ombott(dict(max_memfile_size=case['buf'] + 3, max_body_size=1))
+        app.setup(cfg)
     seen = {}
     app.route('/b', method='POST', callback=handler_of(app, seen))
     env = environ('POST', '/b', **{'wsgi.input': st})
@@ -357,8 +384,10 @@ def run_impl(case):
 
 def encode(case):
     if case['kind'] == 'budget':
-        _, triples = build_multipart(case['parts'])
-        return [2, case['buf']] + enc_list(triples, lambda t: list(t))
+        # the model gets the raw body and boundary: it runs its own scanner (MultipartRef.ref), header
+        # parser and FieldStorage model (Fields.iter_items); nothing is taken from the implementation
+        body, _ = build_multipart(case['parts'])
+        return [2, case['buf']] + enc_str(b'BnD') + enc_str(body)
     return ([0 if case['kind'] == 'body' else 1, case['cl'], 1 if case['chunked'] else 0, case['buf'],
              0 if case['maxb'] is None else 1, case['maxb'] or 0]
             + enc_str(case['data']) + enc_list(case['sched'], lambda k: [k]))
@@ -373,7 +402,7 @@ def decode(out, case):
     tag = r.int()
     if case['kind'] == 'budget':
         if tag == 0:
-            return dict(status='ok', n=len(case['parts']))
+            return dict(status='ok', n=r.int())
         if tag == 1:
             idx, code = r.int(), r.int()
             if case['via'] == 'iter_items':
@@ -524,11 +553,13 @@ def key(case):
 
 def classify(case, obs):
     if case['kind'] == 'budget':
-        return 'budget/%s/%s' % (case['via'], obs.get('status'))
+        return 'budget/%s%s/%s' % (case['via'], '+' + case['conf'] if case.get('conf', 'ctor') != 'ctor' else '',
+                                   obs.get('status'))
     size, buf, maxb = case['payload_len'], case['buf'], case['maxb']
     rel = 'nolimit' if maxb is None else 'size<limit' if size < maxb else 'size=limit' if size == maxb else \
         'size<=limit+buf' if size <= maxb + buf else 'size>limit+buf'
-    return '%s/%s/%s/%s/%s/%s' % (case['kind'], case['via'], 'chunked' if case['chunked'] else 'cl', rel,
+    via = case['via'] + ('+' + case['conf'] if case.get('conf', 'ctor') != 'ctor' else '')
+    return '%s/%s/%s/%s/%s/%s' % (case['kind'], via, 'chunked' if case['chunked'] else 'cl', rel,
                                   'spill' if size > buf else 'mem', obs.get('status'))
 
 
@@ -556,10 +587,12 @@ MANIFEST = dict(
           'its payload exceeds the limit, after at most limit + buffer payload bytes and (buffer+2) framing bytes per '
           'chunk line seen; within the limit the body is accepted unchanged; spooled to disk iff larger than '
           'max_memfile_size; urlencoded/JSON text above max_memfile_size is answered 413 and never returned; the '
-          'multipart in-memory budget admits a form iff headers + text fields fit, whatever the size of file parts. '
-          'Models (coq/model/Body.v, Chunked.v, BodyLimits.v) are tied to /repo by differential correspondence.'),
+          'multipart in-memory budget admits a form iff headers + text fields fit, whatever the size of file parts — '
+          'proved on the budget arithmetic, refined to the real field-layer model (Fields.iter_items) for every '
+          'markup list, and lifted through BodyPipeline.process for every browser-encoded form under both framings. '
+          'Models (coq/model/Body.v, Chunked.v, BodyLimits.v, Fields.v, MultipartRef.v) are tied to /repo by differential correspondence.'),
     note=('Trusted: Coq kernel + vm_compute; extraction; the Python harness; the stream model. Modelled not verified: '
-          'multipart markup (sizes taken from the implementation), temporary file, parse_qsl/json.loads.'),
+          'temporary file, parse_qsl/json.loads.'),
     technique='Coq proof (loop invariants with a size limit for all read schedules) + model/implementation '
               'correspondence',
     design_ref='DESIGN.md section 4, C13',
